@@ -70,6 +70,8 @@ def refine(ex, test_ast, env, label):
             env[k] = TRUTHY if truth else FALSY
     return env
 
+MUTATORS = {"append", "add", "appendleft", "extend", "insert", "pop", "popleft", "remove", "clear", "sort", "reverse",
+            "discard", "update", "setdefault", "popitem", "rotate"}
 PURE_METHODS = {"lower", "upper", "strip", "lstrip", "rstrip", "startswith", "endswith", "casefold",
                 "split", "isdigit", "isnumeric", "isdecimal", "find", "get", "keys", "items", "values", "count"}
 
@@ -403,6 +405,34 @@ class Explorer:
                             new = dict(env)
                         new[k] = v
             return new if new is not None else env
+        if isinstance(st, ast.Expr) and isinstance(st.value, ast.Call) and isinstance(st.value.func, ast.Attribute):
+            # in-place growth of a tracked sequence (lists are modelled as tuples): `acc.append(x)`
+            c = st.value
+            k = self.key_of(c.func.value)
+            if k is not None and k not in self.frozen and k in env and isinstance(env[k], tuple):
+                m = c.func.attr
+                cur = env[k]
+                new = dict(env)
+                args = [self.ev(a, env) for a in c.args]
+                if c.keywords or any(a is UNKNOWN for a in args):
+                    val = UNKNOWN if m in MUTATORS else cur
+                elif m in ("append", "add") and len(args) == 1:
+                    val = cur + (args[0],)
+                elif m == "appendleft" and len(args) == 1:
+                    val = (args[0],) + cur
+                elif m == "extend" and len(args) == 1 and isinstance(args[0], (tuple, list)):
+                    val = cur + tuple(args[0])
+                elif m == "insert" and len(args) == 2 and isinstance(args[0], int):
+                    l = list(cur)
+                    l.insert(args[0], args[1])
+                    val = tuple(l)
+                elif m in MUTATORS:
+                    val = UNKNOWN
+                else:
+                    val = cur
+                new[k] = val
+                return new
+            return env
         if isinstance(st, ast.AugAssign):
             k = self.key_of(st.target)
             if k is not None and k not in self.frozen and (k in env or k in self.tracked):
